@@ -22,10 +22,6 @@ Section Resp.
 Variables wvalid wv : Z.
 Hypothesis Hwvalid : 1 <= wvalid.
 Hypothesis Hwv : 7 <= wv.
-(* fx: whether state 2 handles size = 0 (instantiated with the probe resp_fixed through CMDResponse_clock_ref) *)
-Variable fx : bool.
-Hypothesis Href : forall st vin size start ready,
-  CMDResponse_clock wvalid wv st vin size start ready = resp_ref fx wvalid wv st vin size start ready.
 
 Lemma trunc_valid1 : trunc wvalid 1 = 1.
 Proof.
@@ -52,8 +48,8 @@ Definition rs_a (c : rs_cfg) : Z := CMDResponse_s_aux (rs_st c).
 Definition rs_inv (c : rs_cfg) : Prop :=
   let s := rs_state c in let vd := r_valid (rs_o c) in let vv := r_v (rs_o c) in
   (s = 0 /\ vd = 0) \/
-  (s = 1 /\ vd = 0 /\ min_size fx - 1 <= rs_ts c) \/
-  (s = 2 /\ vd = 1 /\ vv = 61 /\ min_size fx - 1 <= rs_ts c) \/
+  (s = 1 /\ vd = 0 /\ -1 <= rs_ts c) \/
+  (s = 2 /\ vd = 1 /\ vv = 61 /\ -1 <= rs_ts c) \/
   (s = 3 /\ vd = 0 /\ 0 <= rs_ts c /\ rs_a c = nibble (rs_t c) (rs_ts c)) \/
   (s = 4 /\ vd = 1 /\ vv = hexchar (rs_a c) /\ 0 <= rs_ts c /\ rs_a c = nibble (rs_t c) (rs_ts c)) \/
   (s = 5 /\ vd = 0) \/
@@ -79,7 +75,7 @@ Ltac projs :=
        Z.eqb Pos.eqb orb andb negb fst snd app] in *.
 
 Ltac red_step :=
-  unfold rs_step; rewrite Href; unfold resp_ref, mk_rs_st, mk_rs_out; projs.
+  unfold rs_step; rewrite CMDResponse_clock_ref; unfold resp_ref, mk_rs_st, mk_rs_out; projs.
 
 Ltac fin := unfold rs_inv, rs_pend, rs_need, xfer, on; projs;
   repeat match goal with E : (?r =? 0) = _ |- context [?r =? 0] => rewrite E end; projs;
@@ -92,7 +88,6 @@ Lemma rs_step_busy c i : rs_inv c -> rs_state c <> 0 ->
 Proof.
   destruct c as [[s t ts a] [vd vv]]. destruct i as [vin size start ready].
   unfold rs_inv. projs. intros H Hs0.
-  assert (Hms : 0 <= min_size fx) by (unfold min_size; destruct fx; lia).
   destruct H as [(-> & _)|[(-> & -> & Hts)|[(-> & -> & -> & Hts)|[(-> & -> & Hts & Ha)|[(-> & -> & -> & Hts & Ha)|[(-> & ->)|(-> & -> & ->)]]]]]];
     [congruence| | | | | |]; clear Hs0.
   - (* 1 *) red_step. unfold py_truth. destruct (ready =? 0) eqn:Er; projs; rewrite ?trunc_valid1, ?(trunc_char 61) by lia.
@@ -100,10 +95,10 @@ Proof.
     + fin.
   - (* 2 *) red_step. destruct (ready =? 0) eqn:Er; projs; rewrite ?trunc_valid1, ?trunc_0.
     + fin.
-    + assert (Hcase : (fx && (ts <? 0) = true /\ ts = -1) \/ (fx && (ts <? 0) = false /\ 0 <= ts)).
-      { unfold min_size in Hts. destruct fx; cbn [andb]; [destruct (Z.ltb_spec ts 0)|]; lia. }
+    + assert (Hcase : ((ts <? 0) = true /\ ts = -1) \/ ((ts <? 0) = false /\ 0 <= ts)).
+      { destruct (Z.ltb_spec ts 0); lia. }
       destruct Hcase as [[Hc ->]|[Hc Hts0]]; rewrite Hc.
-      * (* size 0 (repaired encoder only): no digit, straight to the final '!' *)
+      * (* size 0: no digit, straight to the final '!' *)
         unfold rs_inv, rs_pend, rs_need, xfer, on. projs. rewrite Er. projs.
         repeat split; try reflexivity; try lia; try discriminate; try (intuition lia; fail).
       * rewrite nib_nibble by lia. unfold rs_inv, rs_pend, rs_need, xfer, on. projs. rewrite Er. projs.
@@ -144,7 +139,7 @@ Proof.
   intros [-> ->] Hst. red_step. unfold py_truth. rewrite Hst. projs. auto.
 Qed.
 
-Lemma rs_step_start c i : rs_idle c -> on (i_start i) = true -> min_size fx <= i_size i ->
+Lemma rs_step_start c i : rs_idle c -> on (i_start i) = true -> 0 <= i_size i ->
   rs_inv (rs_step wvalid wv c i) /\ rs_state (rs_step wvalid wv c i) <> 0 /\
   rs_pend (rs_step wvalid wv c i) = response (i_vin i) (Z.to_nat (i_size i)) /\
   rs_need (rs_step wvalid wv c i) = Z.to_nat (2 * i_size i + 4) /\ xfer (rs_o c) (i_ready i) = [].
@@ -152,7 +147,6 @@ Proof.
   destruct c as [[s t ts a] [vd vv]]. destruct i as [vin size start ready]. unfold rs_idle, on, xfer. projs.
   intros [-> ->] Hst Hk. red_step. unfold py_truth. rewrite Hst. projs.
   unfold rs_inv, rs_pend, rs_need, response. projs. replace (size - 1 + 1) with size by lia.
-  assert (0 <= min_size fx) by (unfold min_size; destruct fx; lia).
   repeat split; try reflexivity; try lia; try (intuition lia; fail).
 Qed.
 
@@ -194,7 +188,7 @@ Proof.
 Qed.
 
 Theorem resp_stream_thm c0 value k st r0 env :
-  rs_idle c0 -> min_size fx <= k -> on st = true -> (Z.to_nat (2 * k + 4) <= ready_count env)%nat ->
+  rs_idle c0 -> 0 <= k -> on st = true -> (Z.to_nat (2 * k + 4) <= ready_count env)%nat ->
   let first := {| i_vin := value; i_size := k; i_start := st; i_ready := r0 |} in
   exists pre post, env = pre ++ post /\
     rs_xfers wvalid wv c0 (first :: pre) = response value (Z.to_nat k) /\
@@ -207,7 +201,7 @@ Proof.
 Qed.
 
 Theorem resp_prefix_thm c0 value k st r0 env :
-  rs_idle c0 -> min_size fx <= k -> on st = true -> Forall (fun i => i_start i = 0) env ->
+  rs_idle c0 -> 0 <= k -> on st = true -> Forall (fun i => i_start i = 0) env ->
   let first := {| i_vin := value; i_size := k; i_start := st; i_ready := r0 |} in
   exists rest, rs_xfers wvalid wv c0 (first :: env) ++ rest = response value (Z.to_nat k).
 Proof.
